@@ -96,6 +96,9 @@ def main():
             text += (f" The decision logic of {GUARDS[pid]} is re-translated from the source into Lean on every run (translate/py2lean_guards.py → LK/Generated/Guards{pid}.lean) "
                      f"and proved to be the model's (LK/Proofs/Guards{pid}.lean); a broken obligation triggers the failing-input search.")
             tech += " + per-run translation of decision logic with proof obligations"
+        if pid == "C03":
+            text += (" The wiring of the pipelines topn_pipeline / predict_pipeline build is extracted on every run (translate/wiring_gen.py → LK/Generated/WiringC03.lean) and the value of its "
+                     "recommender / rating-predictor nodes, with every component replaced by its model, is proved to be LK.Rec.recommend / fallbackMerge for all environments (LK/Proofs/WiringC03.lean).")
         checks.append({
             "property_id": pid,
             "quick_cmd": f"./check {pid} --tier quick",
